@@ -46,6 +46,7 @@ type E2 struct {
 type E2Opts struct {
 	S2S   bool // server-to-server namespace (stanzas get a from)
 	WS    bool // WebSocket framing (RFC 7395): <open/> ... <close/> instead of an enclosing stream element
+	Recv  bool // the session under test is the receiving entity (ReceiveSession); the scripted peer initiates (TCP framing only)
 	Plain bool // transport without deadlines (plain io.ReadWriter)
 	Chunk bool // short reads on both ends
 }
@@ -73,19 +74,49 @@ func (rc *RC) NewE2(o E2Opts) *E2 {
 		e.Local = jid.MustParse("a.example")
 		e.Remote = jid.MustParse("b.example")
 	}
+	if o.Recv && !o.S2S {
+		e.Local, e.Remote = jid.MustParse("example.net"), jid.MustParse("me@example.net/peer")
+	}
 	var rw io.ReadWriter = e.SUT
 	if o.Plain {
 		rw = simnet.Plain{C: e.SUT}
 	}
-	cfgf := func(*xmpp.Session, *xmpp.StreamConfig) xmpp.StreamConfig { return xmpp.StreamConfig{} }
+	cfgf := func(*xmpp.Session, *xmpp.StreamConfig) xmpp.StreamConfig {
+		if o.Recv {
+			// a receiving entity without features never finishes negotiating: one synthetic mandatory feature
+			return xmpp.StreamConfig{Features: []xmpp.StreamFeature{finFeature(nil)}}
+		}
+		return xmpp.StreamConfig{}
+	}
 	neg := xmpp.NewNegotiator(cfgf)
 	if o.WS {
 		neg = websocket.Negotiator(cfgf)
 	}
 	sutT := rc.Spawn("establish", func() {
+		if o.Recv {
+			e.Sess, e.EstErr = xmpp.ReceiveSession(e.Ctx, rw, state, neg)
+			return
+		}
 		e.Sess, e.EstErr = xmpp.NewSession(e.Ctx, e.Remote, e.Local, rw, state, neg)
 	})
 	peerT := rc.Spawn("peer-establish", func() {
+		if o.Recv {
+			// the scripted initiator speaks first; a server-to-server initiator that names itself is refused by
+			// ReceiveSession (see DESIGN), so it only says whom it wants to talk to
+			from := ""
+			if !o.S2S {
+				from = fmt.Sprintf(" from='%s'", e.Remote)
+			}
+			fmt.Fprintf(e.Peer, `<?xml version='1.0'?><stream:stream xmlns='%s' xmlns:stream='%s' to='%s'%s version='1.0'>`, e.NS, nsStream, e.Local, from)
+			simrt.WaitUntil("peer:features", func() bool {
+				return bytes.HasSuffix(e.SUT.Out().Tap, []byte("</stream:features>"))
+			})
+			io.WriteString(e.Peer, `<fin xmlns='urn:verif:fin'/>`)
+			simrt.WaitUntil("peer:fin-ok", func() bool {
+				return bytes.Contains(e.SUT.Out().Tap, []byte("fin-ok")) && bytes.HasSuffix(e.SUT.Out().Tap, []byte(">"))
+			})
+			return
+		}
 		if o.WS {
 			simrt.WaitUntil("peer:header", func() bool {
 				return bytes.Contains(e.SUT.Out().Tap, []byte("<open ")) && bytes.HasSuffix(e.SUT.Out().Tap, []byte("/>"))
@@ -106,7 +137,9 @@ func (rc *RC) NewE2(o E2Opts) *E2 {
 	}
 	pt := e.Peer.Out().Tap
 	e.PeerEstLen = len(pt)
-	if !o.WS {
+	if o.Recv {
+		e.PeerHeader = append([]byte(nil), pt...)
+	} else if !o.WS {
 		e.PeerHeader = append([]byte(nil), pt[:bytes.Index(pt, []byte("<stream:features/>"))]...)
 	}
 	return e
